@@ -171,6 +171,7 @@ func c14Monitor(args []string) int {
 		if !call("final-stop", func() { s.StopSearch() }) {
 			continue
 		}
+		d.waitResults(accepted)
 		time.Sleep(3 * time.Millisecond)
 		rep.Cases++
 		rep.Stats["accepted_starts"] += accepted
@@ -193,6 +194,7 @@ func c14Monitor(args []string) int {
 		sl.Depth, sl.TimeControl, sl.WhiteTime, sl.BlackTime = 1, true, 60*time.Second, 60*time.Second
 		s.StartSearch(*p, *sl)
 		s.WaitWhileSearching()
+		d.waitResults(1)
 		sl2 := search.NewSearchLimits()
 		sl2.Infinite = true
 		s.StartSearch(*p, *sl2)
